@@ -3,10 +3,17 @@
 package main
 
 import (
+	"bytes"
+	"context"
+	"io/fs"
+	"os"
+	"path/filepath"
+	"sort"
 	"strings"
 	"sync"
 
 	"github.com/ddddddO/gtree"
+	"github.com/fatih/color"
 )
 
 func verifyLists(msg string) string {
@@ -23,6 +30,8 @@ func verifyLists(msg string) string {
 			*cur = append(*cur, hx(strings.TrimPrefix(l, "\t")))
 		}
 	}
+	sort.Strings(extra)
+	sort.Strings(missing)
 	return strings.Join(extra, ",") + "/" + strings.Join(missing, ",")
 }
 
@@ -61,6 +70,177 @@ func handleMore(toks []string) (string, bool) {
 	return "", false
 }
 
+// ---- file-system operations inside a jail ----
+
+type jailT struct {
+	base, dir, prevwd string
+}
+
+var jail *jailT
+
+func jailEnter() {
+	if jail != nil {
+		return
+	}
+	base, err := os.MkdirTemp("", "gtjail")
+	if err != nil {
+		panic(err)
+	}
+	dir := filepath.Join(base, "o1", "o2", "jail")
+	if err := os.MkdirAll(dir, 0o755); err != nil {
+		panic(err)
+	}
+	wd, _ := os.Getwd()
+	if err := os.Chdir(dir); err != nil {
+		panic(err)
+	}
+	jail = &jailT{base: base, dir: dir, prevwd: wd}
+}
+
+func jailLeave() {
+	if jail == nil {
+		return
+	}
+	os.Chdir(jail.prevwd)
+	os.RemoveAll(jail.base)
+	jail = nil
+}
+
+func snapshot() string {
+	var ents []string
+	filepath.WalkDir(jail.base, func(p string, d fs.DirEntry, err error) error {
+		if err != nil {
+			return nil
+		}
+		rel, _ := filepath.Rel(jail.dir, p)
+		if rel == "." || rel == ".." || rel == "../.." || rel == "../../.." {
+			return nil
+		}
+		switch {
+		case d.IsDir():
+			ents = append(ents, "d:"+hx(rel))
+		default:
+			info, e := d.Info()
+			if e == nil && info.Size() == 0 && info.Mode().IsRegular() {
+				ents = append(ents, "e:"+hx(rel))
+			} else {
+				ents = append(ents, "f:"+hx(rel))
+			}
+		}
+		return nil
+	})
+	sort.Strings(ents)
+	if len(ents) == 0 {
+		return "-"
+	}
+	return strings.Join(ents, "+")
+}
+
 func histMore(f []string, node func(string) *gtree.Node, massive bool) (string, bool) {
+	var mopt []gtree.Option
+	if massive {
+		mopt = append(mopt, gtree.WithMassive(context.Background()))
+	}
+	switch f[0] {
+	case "F":
+		jailEnter()
+		if f[1] != "-" {
+			for _, e := range strings.Split(f[1], "+") {
+				kv := strings.SplitN(e, ":", 2)
+				p := unhex(kv[1])
+				switch kv[0] {
+				case "d":
+					os.MkdirAll(p, 0o755)
+				case "f":
+					os.MkdirAll(filepath.Dir(p), 0o755)
+					os.WriteFile(p, []byte("x"), 0o644)
+				case "e":
+					os.MkdirAll(filepath.Dir(p), 0o755)
+					os.WriteFile(p, nil, 0o644)
+				}
+			}
+		}
+		return "ok - " + snapshot(), true
+	case "M", "Md", "m", "md":
+		jailEnter()
+		var opts []gtree.Option
+		var err error
+		var buf bytes.Buffer
+		saved := color.Output
+		color.Output = &buf
+		if f[0] == "M" || f[0] == "Md" {
+			// M,h,D,EXTS,DIR,LD,LI,MD,MI
+			if f[2] == "1" {
+				opts = append(opts, gtree.WithDryRun())
+			}
+			if f[3] != "-" {
+				opts = append(opts, gtree.WithFileExtensions(plusList(f[3])))
+			}
+			if f[4] != "-" {
+				opts = append(opts, gtree.WithTargetDir(unhex(f[4])))
+			}
+			opts = append(opts, gtree.WithBranchFormatLastNode(unhex(f[5]), unhex(f[6])), gtree.WithBranchFormatIntermedialNode(unhex(f[7]), unhex(f[8])))
+			opts = append(opts, mopt...)
+			if f[0] == "M" {
+				err = gtree.MkdirFromRoot(node(f[1]), opts...)
+			} else {
+				err = gtree.MkdirProgrammably(node(f[1]), opts...)
+			}
+		} else {
+			// m,D,EXTS,DIR,LD,LI,MD,MI,DOC
+			if f[1] == "1" {
+				opts = append(opts, gtree.WithDryRun())
+			}
+			if f[2] != "-" {
+				opts = append(opts, gtree.WithFileExtensions(plusList(f[2])))
+			}
+			if f[3] != "-" {
+				opts = append(opts, gtree.WithTargetDir(unhex(f[3])))
+			}
+			opts = append(opts, gtree.WithBranchFormatLastNode(unhex(f[4]), unhex(f[5])), gtree.WithBranchFormatIntermedialNode(unhex(f[6]), unhex(f[7])))
+			opts = append(opts, mopt...)
+			if f[0] == "m" {
+				err = gtree.MkdirFromMarkdown(strings.NewReader(unhex(f[8])), opts...)
+			} else {
+				err = gtree.Mkdir(strings.NewReader(unhex(f[8])), opts...)
+			}
+		}
+		color.Output = saved
+		return classify(err, -1) + " " + chunksOf("d", true, buf.Bytes()) + " " + snapshot(), true
+	case "V", "Vd", "v", "vd":
+		jailEnter()
+		var opts []gtree.Option
+		var err error
+		if f[0] == "V" || f[0] == "Vd" {
+			// V,h,STRICT,DIR
+			if f[2] == "1" {
+				opts = append(opts, gtree.WithStrictVerify())
+			}
+			if f[3] != "-" {
+				opts = append(opts, gtree.WithTargetDir(unhex(f[3])))
+			}
+			opts = append(opts, mopt...)
+			if f[0] == "V" {
+				err = gtree.VerifyFromRoot(node(f[1]), opts...)
+			} else {
+				err = gtree.VerifyProgrammably(node(f[1]), opts...)
+			}
+		} else {
+			// v,STRICT,DIR,DOC
+			if f[1] == "1" {
+				opts = append(opts, gtree.WithStrictVerify())
+			}
+			if f[2] != "-" {
+				opts = append(opts, gtree.WithTargetDir(unhex(f[2])))
+			}
+			opts = append(opts, mopt...)
+			if f[0] == "v" {
+				err = gtree.VerifyFromMarkdown(strings.NewReader(unhex(f[3])), opts...)
+			} else {
+				err = gtree.Verify(strings.NewReader(unhex(f[3])), opts...)
+			}
+		}
+		return classify(err, -1) + " - " + snapshot(), true
+	}
 	return "", false
 }
